@@ -15,7 +15,9 @@
 #include <cmath>
 #include <iostream>
 #include <limits>
+#include <algorithm>
 #include <map>
+#include <memory>
 #include <random>
 #include <string>
 #include <type_traits>
@@ -182,6 +184,7 @@ static const std::map<std::string, std::pair<long double, long double>> RANGES =
     { "QXmppResultSetReply.setCount", { 0, 2147483647.0L } },
     { "QXmppResultSetReply.setIndex", { 0, 2147483647.0L } },
     { "QXmppTuneItem.setRating", { 1, 10 } },                        // XEP-0118: 1..10
+    { "QXmppStanza::Error.setCode", { 0, 2147483647.0L } },          // legacy numeric error codes are positive; 0 is the documented 'none'
 };
 static const std::map<std::string, std::pair<long long, int>> MULTIPLE_OF = {
     { "QXmppEntityTimeIq.setTzo", { 60, 0 } },   // seconds, written as +hh:mm, |offset| < 14 h
@@ -200,6 +203,33 @@ static bool skipValueInState(const std::string &key, const QString &state, const
     if (key == "QXmppHttpUploadRequestIq.setContentType" && shown == u"application/octet-stream") return true;
     // Type::None is the "no element" marker of these two classes (an element without a name cannot be written; DESIGN 5.3)
     if ((key == "QXmppCallInviteElement.setType" || key == "QXmppJingleMessageInitiationElement.setType") && shown == u"enum:0") return true;
+    return false;
+}
+// combination pass: one field's value makes another meaningless (protocol-level exclusivity); gate value "*" = any value of the gate field
+struct Gate {
+    const char *cls, *lost, *gate, *value, *why;
+};
+static const Gate GATES[] = {
+    { "QXmppMessage", "setSpoilerHint", "setIsSpoiler", "false", "a hint belongs to a spoiler (XEP-0382)" },
+    { "QXmppMessage", "setReceiptRequested", "setReceiptId", "*", "a message is a receipt or asks for one (XEP-0184)" },
+    { "QXmppPresence", "setMucPassword", "setMucSupported", "false", "the password is a child of the MUC join element" },
+    { "QXmppRpcResponseIq", "setFaultString", "setFaultCode", "0", "a fault exists iff its code is non-zero" },
+    { "QXmppStanza::Error", "setMaxFileSize", "setFileTooLarge", "false", "the size limit is a child of <file-too-large/> (XEP-0363)" },
+    { "QXmppStanza::Error", "setRetryDate", "setFileTooLarge", "true", "an upload error is either 'file too large' or 'retry later' (XEP-0363)" },
+    { "QXmppStanza::Error", "setRetryDate", "setMaxFileSize", "*", "setting a size limit makes the error a 'file too large' error" },
+    { "QXmppRosterIq::Item", "setMixParticipantId", "setIsMixChannel", "false", "participant id is an attribute of the MIX channel marker" },
+    { "QXmppJingleIq::Content", "setTransportFingerprintHash", "setTransportFingerprint", "*", "the DTLS fingerprint element needs both value and hash" },
+    { "QXmppJingleIq::Content", "setTransportFingerprintSetup", "setTransportFingerprint", "*", "the DTLS fingerprint element needs both value and hash" },
+    { "QXmppJingleIq::Content", "setTransportFingerprint", "setTransportFingerprintHash", "*", "the DTLS fingerprint element needs both value and hash" },
+    { "QXmppJingleIq::Content", "setTransportFingerprintSetup", "setTransportFingerprintHash", "*", "the DTLS fingerprint element needs both value and hash" },
+};
+static bool gated(const char *cls, const QString &lost, const QJsonArray &names, const QJsonArray &values)
+{
+    for (const auto &g : GATES) {
+        if (qstrcmp(g.cls, cls) != 0 || lost != QLatin1String(g.lost)) continue;
+        for (int i = 0; i < names.size(); i++)
+            if (names[i].toString() == QLatin1String(g.gate) && (g.value[0] == '*' || values[i].toString() == QLatin1String(g.value))) return true;
+    }
     return false;
 }
 template<class V>
@@ -297,6 +327,40 @@ static std::vector<QByteArray> binaryDomain()
     return out;
 }
 
+// ---- per-class registry of the fields seen, for the combination pass ("every assignment of values to its fields", "all combinations
+// of present/absent optional fields"): type-erased accessors over the domain values that survive alone
+template<class T>
+struct FieldOps {
+    std::string name;
+    std::function<void(T &, size_t)> set;
+    std::function<bool(const T &, size_t)> holds;
+    std::function<QString(size_t)> shown;
+    std::function<QString(const T &)> got;
+    std::map<QString, std::vector<size_t>> okValues;   // state -> indices of the values that round-trip when set alone
+    bool discriminator = false;   // enum-valued: type / mode / action fields decide which other fields exist at all; they are varied through the object states instead
+};
+template<class T>
+static std::vector<FieldOps<T>> &fieldsOf()
+{
+    static std::vector<FieldOps<T>> v;
+    return v;
+}
+struct ClassHooks {
+    std::function<void()> clear, run;
+};
+static std::vector<ClassHooks> g_classes;
+static int g_combos = 0, g_comboFails = 0, g_comboRoundsMax = 60;
+template<class T>
+static void runCombos(const char *cls);
+template<class T>
+static void registerClass(const char *cls)
+{
+    static bool done = false;
+    if (done) return;
+    done = true;
+    g_classes.push_back({ [] { fieldsOf<T>().clear(); }, [cls] { runCombos<T>(cls); } });
+}
+
 template<class T, class V, class G, class Set, class Get>
 static void runAccess(const char *cls, const char *setter, Set set, Get get, bool binary, std::vector<V> explicitDom = {});
 
@@ -374,6 +438,17 @@ static void runAccess(const char *cls, const char *setter, Set set, Get get, boo
             dom = kept;
         }
     }
+    registerClass<T>(cls);
+    auto domShared = std::make_shared<std::vector<V>>(dom);
+    std::vector<size_t> perm(dom.size());
+    for (size_t i = 0; i < perm.size(); i++) perm[i] = i;
+    FieldOps<T> ops;
+    ops.name = setter;
+    ops.discriminator = std::is_enum_v<typename strip_optional<V>::type>;
+    ops.set = [set, domShared](T &o, size_t i) { set(o, V((*domShared)[i])); };
+    ops.holds = [get, domShared](const T &o, size_t i) { return same(V((*domShared)[i]), G(get(o))); };
+    ops.shown = [domShared](size_t i) { return show(V((*domShared)[i])); };
+    ops.got = [get](const T &o) { return show(G(get(o))); };
     for (auto &[stateName, prep] : states<T>()) {
         QJsonObject rec { { "cls", QString::fromLatin1(cls) }, { "field", QString::fromLatin1(setter) }, { "state", stateName } };
         QJsonArray fails;
@@ -428,6 +503,7 @@ static void runAccess(const char *cls, const char *setter, Set set, Get get, boo
                         V first = dom[0];
                         dom[0] = v;
                         dom[i] = first;
+                        std::swap(perm[0], perm[i]);   // the registry keeps the original order
                     }
                     break;
                 }
@@ -442,6 +518,7 @@ static void runAccess(const char *cls, const char *setter, Set set, Get get, boo
             continue;
         }
         g_live++;
+        ops.okValues[stateName].push_back(perm[0]);
         int tried = 0;
         for (size_t i = 1; i < dom.size(); i++) {
             if (skipValueInState(key, stateName, show(V(dom[i])))) continue;
@@ -450,12 +527,89 @@ static void runAccess(const char *cls, const char *setter, Set set, Get get, boo
             if (!attempt(V(dom[i]), got, xml)) {
                 g_fail++;
                 fails.append(QJsonObject { { "value", show(V(dom[i])) }, { "got", got }, { "xml", QString::fromUtf8(xml.left(1200)) } });
+            } else if (got != u"(setter-domain)") {
+                ops.okValues[stateName].push_back(perm[i]);
             }
         }
         rec["tried"] = tried;
         rec["fails"] = fails;
         emitJson(rec);
     }
+    if (!ops.okValues.empty()) fieldsOf<T>().push_back(std::move(ops));
+}
+
+// combination pass: several fields of one object set at once, each to a value that survives alone in that state
+template<class T>
+static void runCombos(const char *cls)
+{
+    auto &all = fieldsOf<T>();
+    if (all.size() < 2) return;
+    int tried = 0, gatedCount = 0;
+    QJsonArray fails;
+    for (auto &[stateName, prep] : states<T>()) {
+        std::vector<FieldOps<T> *> live;
+        for (auto &f : all)
+            if (f.okValues.count(stateName) && !f.discriminator) live.push_back(&f);
+        if (live.size() < 2) continue;
+        const int rounds = int(qMin<size_t>(size_t(g_comboRoundsMax), 6 + live.size() * 3));
+        for (int k = 0; k < rounds; k++) {
+            // subset: pairs, triples, half, all
+            size_t want = k % 4 == 0 ? live.size() : k % 4 == 1 ? 2 : k % 4 == 2 ? 3 : qMax<size_t>(2, live.size() / 2);
+            want = qMin(want, live.size());
+            std::vector<FieldOps<T> *> pick = live;
+            std::shuffle(pick.begin(), pick.end(), g_rng);
+            pick.resize(want);
+            std::vector<size_t> val;
+            for (auto *f : pick) {
+                auto &ok = f->okValues[stateName];
+                val.push_back(ok[g_rng() % ok.size()]);
+            }
+            T o {};
+            g_nsOverride.clear();
+            prep(o);
+            for (size_t i = 0; i < pick.size(); i++) pick[i]->set(o, val[i]);
+            // setters that interact (one resets or normalises another): such an assignment is not an object the API can build
+            bool buildable = true;
+            for (size_t i = 0; i < pick.size(); i++) buildable = buildable && pick[i]->holds(o, val[i]);
+            if (!buildable) continue;
+            tried++;
+            g_combos++;
+            const QByteArray xml = serializeAny(o);
+            QDomDocument doc;
+            bool wrapped;
+            QString problem, lost;
+            if (!toDom(xml, doc, wrapped)) problem = u"(output not well-formed)"_s;
+            else if (auto o2 = parseAny<T>(doc.documentElement()); !o2) problem = u"(own output refused)"_s;
+            else {
+                for (size_t i = 0; i < pick.size() && problem.isEmpty(); i++)
+                    if (!pick[i]->holds(*o2, val[i])) {
+                        lost = QString::fromStdString(pick[i]->name);
+                        problem = u"value-lost: set "_s + pick[i]->shown(val[i]) + u", after the round trip "_s + pick[i]->got(*o2);
+                    }
+                if (problem.isEmpty()) {
+                    const QByteArray xml2 = serializeAny(*o2);
+                    QDomDocument doc2;
+                    bool w2;
+                    if (xml2 != xml && (!toDom(xml2, doc2, w2) || canonEl(doc.documentElement()) != canonEl(doc2.documentElement())))
+                        problem = u"(serializes differently after the round trip) "_s + QString::fromUtf8(xml2.left(700));
+                }
+            }
+            if (!problem.isEmpty()) {
+                QJsonArray names, values;
+                for (size_t i = 0; i < pick.size(); i++) {
+                    names.append(QString::fromStdString(pick[i]->name));
+                    values.append(pick[i]->shown(val[i]).left(80));
+                }
+                if (!lost.isEmpty() && gated(cls, lost, names, values)) {
+                    gatedCount++;
+                    continue;
+                }
+                g_comboFails++;
+                if (fails.size() < 12) fails.append(QJsonObject { { "state", stateName }, { "fields", names }, { "values", values }, { "lost", lost }, { "problem", problem.left(900) }, { "xml", QString::fromUtf8(xml.left(1500)) } });
+            }
+        }
+    }
+    emitJson(QJsonObject { { "cls", QString::fromLatin1(cls) }, { "combination", true }, { "fields", int(all.size()) }, { "tried", tried }, { "not_judged_gated", gatedCount }, { "fails", fails } });
 }
 
 // object-valued fields (lists / optionals of codec classes): values are parsed from corpus elements handed in by the driver ("objs"),
@@ -574,10 +728,20 @@ int main()
         g_objs = in["objs"].toObject();
         g_rng.seed(quint64(in["seed"].toDouble(1)));
         g_fields = g_live = g_values = g_fail = 0;
+        g_combos = g_comboFails = 0;
+        for (auto &c : g_classes) c.clear();
         g_skip = in["skip"].toInt(0);
+        g_comboRoundsMax = in["comboRounds"].toInt(60);
 #include "fields_gen.h"
 #include "fields_hand.h"
-        emitJson(QJsonObject { { "n", in["n"] }, { "summary", true }, { "fields", g_fields }, { "live_states", g_live }, { "values", g_values }, { "failures", g_fail } });
+        if (g_skip == 0) {
+            for (auto &c : g_classes) {
+                printf("FIELD %d combinations -\n", g_fields + 1);
+                fflush(stdout);
+                c.run();
+            }
+        }
+        emitJson(QJsonObject { { "n", in["n"] }, { "summary", true }, { "combinations", g_combos }, { "combination_failures", g_comboFails }, { "fields", g_fields }, { "live_states", g_live }, { "values", g_values }, { "failures", g_fail } });
     }
     return 0;
 }
